@@ -7,6 +7,7 @@ package aa
 import (
 	"fmt"
 	"regexp"
+	"slices"
 	"strings"
 
 	"github.com/roddhjav/apparmor.d/pkg/paths"
@@ -30,13 +31,13 @@ func (f *AppArmorProfileFile) Resolve() error {
 
 	// Append value to variable
 	seen := map[string]*Variable{}
-	for idx, variable := range f.Preamble.GetVariables() {
+	for _, variable := range f.Preamble.GetVariables() {
 		if _, ok := seen[variable.Name]; ok {
 			if variable.Define {
 				return fmt.Errorf("variable %s already defined", variable.Name)
 			}
 			seen[variable.Name].Values = append(seen[variable.Name].Values, variable.Values...)
-			f.Preamble = f.Preamble.Delete(idx)
+			f.Preamble = slices.DeleteFunc(f.Preamble, func(r Rule) bool { return r == Rule(variable) })
 		}
 		if variable.Define {
 			seen[variable.Name] = variable
